@@ -55,6 +55,10 @@ def _atoms(e, inl, depth=0):
         cal = BY_PAT[e["cpat"]]
         if cal.get("body") is not None and len(str(cal["body"])) < 20000:
             cinl = single_assignment_locals(cal)
+            cst = stmts_of(cal["body"])
+            if len(cst) == 1 and cst[0].get("k") == "Return" and cst[0].get("e") is not None:
+                res.update(_atoms(cst[0]["e"], cinl, depth + 2))      # a getter reads as what it returns
+
             def cv(n):
                 if n.get("k") in ("If", "Cond") and n.get("c") is not None:
                     res.update(_atoms(n["c"], cinl, depth + 2))
